@@ -61,12 +61,22 @@ Fixpoint run_async (c : cfg) (s : st) (ms : list msg) : st * list event :=
               let '(s2, o2) := run_async c s1 r in (s2, o1 ++ o2)
   end.
 
-(* Close(): leftover expectations are reported *)
+(* end of the dispatcher goroutine's `for msg := range mp.input` loop (the input channel was closed by AsyncClose,
+   directly or through Close): leftover expectations are reported there, by the goroutine, not by Close() *)
 Definition close_events (s : st) : list event :=
   match exps s with [] => [] | _ => [EvReport (RepLeftOver (Z.of_nat (length (exps s))))] end.
 
 Definition async_history (c : cfg) (es : list expectation) (ms : list msg) : list event :=
   let '(s, o) := run_async c (init es) ms in o ++ close_events s.
+
+(* The two ways an application shuts the async mock down: Close() = AsyncClose() + wait for the goroutine;
+   AsyncClose() alone, the application then waits for Successes()/Errors() to be closed. The goroutine closes those
+   channels after the left-over report, so the report is there in both styles; Close() itself reports nothing. *)
+Inductive shutdown := ShClose | ShAsyncClose.
+Definition close_call_events (sd : shutdown) (s : st) : list event :=
+  match sd with ShClose => [] | ShAsyncClose => [] end.
+Definition async_history_sd (c : cfg) (sd : shutdown) (es : list expectation) (ms : list msg) : list event :=
+  let '(s, o) := run_async c (init es) ms in o ++ close_events s ++ close_call_events sd s.
 
 (* ---- sync mock ---- *)
 (* What one expectation does to one message (shared by SendMessage and the SendMessages loop):
